@@ -307,6 +307,7 @@ pub fn run(ctx: &Ctx) -> Report {
      `show --json` parsed and compared as values with an independent reader (harness) and with the model; tab-delimited and --terminal renderings checked against the JSON values; same bytes through stdin; \
      non-trivial = at least three optional keys; distinct by file hash",
   );
+  report.rule.push_str("; the same bytes through `-`, `/dev/stdin`, a file called `-` (as `./-`, another torrent on standard input), a relative link in another directory; TZ rotated; narrow IMDL_TERM_WIDTH; empty values on lines of their own; now and then the report on a pseudo-terminal against the --terminal rendering; generator: announce inside the first tier, up to 55 000 pieces, upper-case md5sum");
   report.correspondences.push("C07.summary: `imdl torrent show --json` values = Imdlv.Summary.summary (Imdlv.Load.loadTorrent bytes)".into());
   let inputs: Vec<Vec<u8>> = match super::replay_cases(ctx) {
     Some(rc) => rc.iter().filter_map(|v| v.get("torrent_hex").and_then(|h| h.as_str()).and_then(unhex)).collect(),
